@@ -54,6 +54,11 @@ theorem stamp_ok : Extracted.Build.stamp = Expected.Build.stamp := rfl
 theorem gc_ok : Extracted.Build.gc = Expected.Build.gc := rfl
 theorem link_ok : Extracted.Build.link = Expected.Build.link := rfl
 theorem run_ok : Extracted.Build.run = Expected.Build.run := rfl
+theorem applyOptions_ok : Extracted.Build.applyOptions = Expected.Build.applyOptions := rfl
+/-- `RunOptions.apply` assigns BOTH flags on the nil-options path (the reset `applyOptions … none = ⟨false, false⟩`
+models) and both on the other path -/
+theorem applyOptions_nil_resets_ok : Extracted.Build.applyNilAssigns = ["always", "dryrun"] := by decide
+theorem applyOptions_sets_ok : Extracted.Build.applySetAssigns = ["always", "dryrun"] := by decide
 theorem saveIndex_ok : Extracted.Build.saveIndex = Expected.Build.saveIndex := rfl
 theorem indexInfo_ok : Extracted.Build.indexInfo = Expected.Build.indexInfo := rfl
 
